@@ -134,7 +134,17 @@ pub fn run_ops<T: HScalar, P: Prob<T>>(mut p: P, ops: &[Value], out: &mut Vec<Va
                 out.push(json!({"op": "ref_current", "v": reference::<T>(ctx, &a)}));
             }
             "tables" => {
-                out.push(json!({"op": "tables", "v": tables(&p.p_model().inner)}));
+                // the model tables Phi(alpha), D_k(alpha) for the parameters the problem REPORTS, from a fresh model of the same
+                // specification that is handed these parameters through set_params (a model that computes from what set_params
+                // stored would otherwise just repeat whatever the problem's own copy was or was not told)
+                let spec = ModelSpec::<T>::parse(&ctx["model"]);
+                let mut fresh = AnyModel::new(&spec);
+                let v = if varpro::model::SeparableNonlinearModel::set_params(&mut fresh, p.p_params()).is_ok() {
+                    tables(&fresh)
+                } else {
+                    tables(&p.p_model().inner)
+                };
+                out.push(json!({"op": "tables", "v": v}));
             }
             "svd" => {
                 let v = match p.p_svd() {
